@@ -101,6 +101,9 @@ def _two(case):
         av2 = [v for _, x in s2["a"] for v in x]
         outs = [v for v in vs if v in s1["o"] or v in s2["o"]]
         keeps = [[]] + [[v] for v in vs] + ([outs] if len(outs) > 1 else [])
+        non = [v for v in vs if v not in outs]
+        if len(non) > 1:
+            keeps.append(non[:2])  # two variables that are not outputs
         for keep in keeps:
             env, outcome, res, c1, c2 = SA.run("compose", s1, s2, keep)
             _judge("compose", SA.ref_compose(s1, s2, keep, av1, av2), outcome, res, {"op": "compose", "pat": pat, "arg": keep}, agg)
